@@ -698,10 +698,12 @@ class Header(Iterable):
         n = 0
         nn = self.n
         for v in self._instream:
-            if n >= nn:
-                break
             yield v
             n += 1
+            if n >= nn:
+                # Stop without pulling (and possibly failing on) an element
+                # beyond the `n`-th, which is to be ignored.
+                break
 
 
 class Tailer(Iterable):
